@@ -16,6 +16,14 @@ end Eru.Rpc.Auth
 
 namespace Eru.Rpc.Retry
 
+/-- the watch streams of the property: the two status-watching RPCs -/
+def watchMethods : List String := ["/pb.CoreRPC/WatchServiceStatus", "/pb.CoreRPC/WorkloadStatusStream"]
+
+/-- clauses violated by the allow-list found in the source (`interceptor.RPCNeedRetry`) -/
+def specAllow (allow : List String) : List String :=
+  (if allow.all watchMethods.contains then [] else ["non-watch-method-in-allow-list"]) ++
+  (if watchMethods.all allow.contains then [] else ["watch-method-not-in-allow-list"])
+
 def isEmptyStream {μ} (s : Stream μ) : Bool := s.msgs.isEmpty
 
 /-- the streams the server actually served: the first `n` of the script, padded with the
